@@ -65,6 +65,13 @@ var props = []*prop{
 		Rule:     "one case = one simulated run: 1-6 concurrent callers x 1-4 calls through one real ServantProxy with tape-drawn proxy/per-call/context deadlines, dial/write/read time-outs and send-queue length; the peer's behaviour is drawn per connection (close on accept, never read, silent, garbage) and per request (immediate, never, around the deadline, late, close after request, half a response then close, reset, garbage, other id first), plus address faults (refused, black-holed, refuse-then-heal, crash and restart); a fault-free variant (every call must succeed) runs separately; distinct = distinct (event-log hash, switch trace hash); non-trivial = at least one preemption, stall or fired fault",
 	},
 	{
+		ID: "C12", Binary: "simcore", Quick: 1600, Thorough: 40000, RunWall: 180 * time.Second,
+		Variants: []variant{{Scenario: "c12", Params: map[string]string{"pool": "0"}, Weight: 1}, {Scenario: "c12", Params: map[string]string{"pool": "n"}, Weight: 1}},
+		Real:     []string{"tars/transport: TarsServer.Shutdown, tcpHandler accept loop / receive loops / CloseIdles (instrumented)", "tars.Protocol.Invoke and GetCloseMsg (instrumented)", "tars/util/gpool worker pool (instrumented)"},
+		Stub:     append([]string{netStub, "clients -> scripted raw clients (reference codec) that pipeline requests and read until the server closes", "servant -> sleeping echo dispatcher"}, commonStub...),
+		Rule:     "one case = one simulated run: real TarsServer with pool 0/1/2/4 and queue capacity 1/3/1000, 1-4 raw clients pipelining 0-7 requests (handler durations 0-2500ms, some one-way, some sent late into the drain window), Shutdown at a drawn instant with a drawn context (0.7-60s); checked separately for pool 0 and pool N; distinct = distinct (event-log hash, switch trace hash); non-trivial = at least one preemption or fired fault",
+	},
+	{
 		ID: "C19", Binary: "simcore", Quick: 6000, Thorough: 120000, RunWall: 60 * time.Second,
 		Variants: []variant{{Scenario: "c19", Weight: 1}},
 		Real:     []string{"tars/util/gpool (instrumented from the working tree)"},
